@@ -57,7 +57,7 @@ class Bounded:
     """Bounded stand-in executed natively (never counted as proved)."""
 
     def __init__(self, name, family, params_quick, params_thorough, bound_text, only_when_undecided=False,
-                 known_inputs=None):
+                 known_inputs=None, post=None):
         self.name = name
         self.family = family
         self.params_quick = params_quick
@@ -67,6 +67,7 @@ class Bounded:
         # outside the subset); if it then finds nothing the run exits 0 with level `exploration` (DESIGN 2.6 / 2.8)
         self.only_when_undecided = only_when_undecided
         self.known_inputs = known_inputs  # callable(violation dict) -> dict of named inputs for known-finding classes
+        self.post = post  # callable(native output) -> native output with "violations" filled in (driver-side oracle)
 
 
 class Property:
@@ -358,6 +359,8 @@ def run_check(mod, prop, tier, seed, a, t0):
         if "harness_error" in o:
             errors.append({"task": "bounded." + b.name, "error": o["harness_error"]})
             continue
+        if b.post is not None:
+            o = b.post(o)
         if b.only_when_undecided:
             fallback_used = True
         kn = list(o.get("known", []))
